@@ -192,6 +192,11 @@ func (x *Exec) runUnit(recvList *ast.FieldList, ftype *ast.FuncType, body *ast.B
 		st.ghost[b.Name] = T{S: v.S, Ty: g.Ty}
 	}
 	for _, r := range ct.Requires {
+		if nameIdent == nil && strings.Contains(r.Text, "old(") {
+			// a literal's requires that speaks about the enclosing function's entry
+			// state is an obligation of the start site only
+			continue
+		}
 		st.assume(x.specEval(st, r.Expr, env).S)
 	}
 	x.cover(st, "requires", body)
